@@ -2,7 +2,10 @@
 #![allow(clippy::type_complexity)]
 mod driver;
 mod props;
+mod qz;
+mod wire;
 mod selftest;
+mod tsigref;
 mod util;
 
 use driver::{CheckOpts, Prop, Tier};
@@ -32,7 +35,11 @@ fn arg_value(args: &[String], name: &str) -> Option<String> {
 macro_rules! dispatch {
     ($id:expr, $f:ident ( $($a:expr),* )) => {
         match $id {
+            "C26" => Some(driver::$f::<props::c26::C26>($($a),*)),
+            "C27" => Some(driver::$f::<props::c27::C27>($($a),*)),
+            "C28" => Some(driver::$f::<props::c28::C28>($($a),*)),
             "C29" => Some(driver::$f::<props::c29::C29>($($a),*)),
+            "C32" => Some(driver::$f::<props::c32::C32>($($a),*)),
             _ => None,
         }
     };
